@@ -248,7 +248,7 @@ def record_and_validate(ev, fnd, tier, matchers, prop="C09", bins=None):
     quick = tier == "quick"
     # every instantiation: Z_2 configurations over Z_2, Z_p configurations over Z_5; thorough tier in addition
     # 2000-step histories over Z_7 on a pseudo-random eighth of the Z_p instantiations
-    executions, steps = (2, 150) if quick else (1, 600)
+    executions, steps = (2, 150) if quick else (1, 400)
     cmds = []
     for (ct, part), b in sorted(bins.items()):
         ps = [(2, executions, steps, None)] if part == 0 else [(5, executions, steps, None)]
